@@ -15,6 +15,9 @@ CONSTANTS
   ROSets = {{}, {2}}
   TickSizes = {2}
   MaxTicks = 1
+  Filter = "none"
+  NoLockSet = {FALSE}
+  TickInList = TRUE
   POR = FALSE
   MaxHist = 0
 VIEW view
